@@ -455,6 +455,12 @@ def secret_rotation_family(W):
                  {"op": "secret", "f": "n1", "value": "K8S-SECRET-v3-Lk1Jh4Gf6"},
                  {"op": "finish", "c": "rf", "ans": rot}, app("b1", "f1", url=1)]
         res.append({"id": "secretrotation/%s/inflight" % st, "cfg": {"filters": [f]}, "steps": steps, "tags": ["secretRotation"]})
+        # the very first request of a filter with discovery: the Secret is rotated and reconciled while the discovery document is being fetched
+        f = dict(F1, store=st, secretRef="n1", discovery=True)
+        steps = [{"op": "secret", "f": "n1", "value": "K8S-SECRET-v1-Qw7Er9Ty2"},
+                 {"op": "idpctl", "d": 0, "f": "n1", "value": "K8S-SECRET-v2-Zx3Cv5Bn8"},
+                 browse("b1", "f1", 1), {"op": "tick", "d": 61}, app("b1", "f1", ans=rot), app("b1", "f1")]
+        res.append({"id": "secretrotation/%s/during-discovery" % st, "cfg": {"filters": [f]}, "steps": steps, "tags": ["secretRotation"]})
     return res
 
 
@@ -1617,6 +1623,14 @@ def c19(W, replay=None):
             scen += [{"id": "c19/all%d/%d" % (L, i), "refs": h["refs"], "events": h["events"]} for i, h in enumerate(hs)]
         # one OAuth client registered for several chains: the filters share the client id as well as the Secret
         scen += [dict(s_, id=s_["id"].replace("c19/", "c19/sameClient/"), sameClient=True) for s_ in scen if s_["id"].startswith(("c19/refs1/", "c19/refs3/"))][:400]
+        # a transient API-server error at the first read of every reconcile (a reconcile that errs is retried, as the work queue does);
+        # and Secret values that are themselves valid base64 text (what providers issue looks like that; Secret.Data is raw bytes)
+        b64 = {"v1": "Zk3vQ9pLw2Xs8RtY6uBn4MjH7cVd1GfA", "v2": "QUJDREVGR0hJSktMTU5PUA=="}
+        extra = []
+        for s_ in [x for x in scen if x["id"].startswith(("c19/refs1/", "c19/refs2/", "c19/all5/"))][:500]:
+            extra.append(dict(s_, id=s_["id"].replace("c19/", "c19/faultyGets/"), faultyGets=True))
+            extra.append(dict(s_, id=s_["id"].replace("c19/", "c19/b64values/"), events=[dict(e, v=b64.get(e.get("v"), e.get("v"))) for e in s_["events"]]))
+        scen += extra
         # start-up: cross-namespace references are refused, a reference naming the controller's own namespace is not
         ev = [{"op": "set", "name": "n1", "v": "v1"}, {"op": "reconcile", "name": "n1", "v": ""}]
         scen += [{"id": "c19/startup/cross-ns-first", "refs": ["n1", "lit", "n2"], "refNs": ["other", "", ""], "crossNs": True, "events": ev},
